@@ -212,6 +212,8 @@ def units(tier):
         for i in range(0, len(ds), step):
             us.append(("day", kind, i, i + step))
         us.append(("parsed", kind))
+        if kind == "greg":
+            us.append(("noise", kind))
     return us
 
 
@@ -255,6 +257,8 @@ def check_case(ctx, kind, c, t, pdesc, hang, tobj=None):
     sig["no_match_exists"] = want is None
     if frac_p:
         sig["p_on_whole_second"] = False
+    if pdesc["t"][0] in ("hf", "hmf") and (zoff - off) % 15 != 0:
+        sig["inexact_rezone_of_decimal_p"] = True   # p is read in t's zone through float arithmetic
     if hang.skip(hkey):
         ctx.count("nonterminating_class_cases_not_expanded")
         ctx.cap("hang_expansion", "at most %d non-terminating executions are run to the horizon per class and unit; "
@@ -355,6 +359,19 @@ def run_unit(unit, ctx):
                         # longest legitimate walks: p just after the last 53-week year / leap day before a century gap
                         for pdesc in _gap_points(c):
                             check_case(ctx, kind, c, t, pdesc, hang)
+    elif u == "noise":
+        # a decimal-hour / decimal-minute p read in a zone of t that is not a quarter-hour away from p's own: the local
+        # time t is matched against has gone through float arithmetic (59.99999999999 s); the match must still be the
+        # earliest one, not a whole unit later
+        ps = [{"rep": "cal", "f": [2020, 1, 1], "t": tt, "tz": [0, 0]} for tt in
+              (["hf", 6, 0.5], ["hf", 12, 0.0], ["hf", 5, 0.75], ["hmf", 6, 29, 0.5], ["hmf", 0, 0, 0.5])]
+        ps += [{"rep": "ord", "f": [100, 141], "t": ["hf", 3, 0.5], "tz": [-3, 0]}]
+        for tm in ({"m": 40}, {"m": 50}, {"s": 0}, {"s": 30}, {"h": 6, "m": 29}, {"h": 6, "m": 40}, {"h": 7}, {"h": 12, "m": 20}):
+            for z in ([0, 10], [0, 20], [0, -1], [5, 40]):
+                t = {"time": tm, "day": {}, "tz": z}
+                ctx.state_count += 1
+                for pdesc in ps:
+                    check_case(ctx, kind, c, t, pdesc, hang)
     elif u == "parsed":
         # the same shapes spelled as text and read by the truncated parser
         from metomi.isodatetime.parsers import TimePointParser
